@@ -50,6 +50,8 @@ Proof.
     + apply (J7 s I u q m0).
   - intros u. rewrite HT. destruct (Nat.eqb_spec u t) as [->|Hne']; cbn [started x']; [discriminate|].
     apply (J8 s I u).
+  - intros Hl H0. rewrite Htot in H0. destruct (J9 s I Hl H0) as (h & Hm). exists h. rewrite HT.
+    destruct (Nat.eqb_spec h t) as [->|]; cbn [mustfree x']; exact Hm.
 Qed.
 
 (* ---------- ASpawn ---------- *)
@@ -132,4 +134,7 @@ Proof.
       * apply (J7 s I u q m0).
   - intros u. rewrite HT. destruct (Nat.eqb_spec u c) as [->|Hn1]; cbn [started xc]; [discriminate|].
     destruct (Nat.eqb_spec u t) as [->|Hn2]; cbn [started xp]; [discriminate|]. apply (J8 s I u).
+  - intros Hl H0. rewrite Htot in H0. destruct (J9 s I Hl H0) as (h & Hm). exists h. rewrite HT.
+    destruct (Nat.eqb_spec h c) as [->|]; [congruence|].
+    destruct (Nat.eqb_spec h t) as [->|]; cbn [mustfree xp]; exact Hm.
 Qed.
